@@ -431,8 +431,8 @@ func NoIBBOverlap(txtAPI hwapi.LowLevelHardwareInterfaces, p *PreSet) (bool, err
 		if hdr1.Type() == fit.EntryTypeBIOSStartupModuleEntry {
 			for j, hdr2 := range fitHeaders {
 				if i < j && hdr2.Type() == fit.EntryTypeBIOSStartupModuleEntry {
-					a := hdr1.Address.Pointer() > hdr2.Address.Pointer()+uint64(getFITDataSize(hdr2, txtAPI))
-					b := hdr2.Address.Pointer() > hdr1.Address.Pointer()+uint64(getFITDataSize(hdr1, txtAPI))
+					a := hdr1.Address.Pointer() >= hdr2.Address.Pointer()+uint64(getFITDataSize(hdr2, txtAPI))
+					b := hdr2.Address.Pointer() >= hdr1.Address.Pointer()+uint64(getFITDataSize(hdr1, txtAPI))
 
 					if !a && !b {
 						return false, fmt.Errorf("BIOS Startup Module Entries overlap "), nil
@@ -451,8 +451,8 @@ func NoBIOSACMOverlap(txtAPI hwapi.LowLevelHardwareInterfaces, p *PreSet) (bool,
 		if hdr1.Type() == fit.EntryTypeBIOSStartupModuleEntry {
 			for j, hdr2 := range fitHeaders {
 				if i < j && hdr2.Type() == fit.EntryTypeStartupACModuleEntry {
-					a := hdr1.Address.Pointer() > hdr2.Address.Pointer()+uint64(getFITDataSize(hdr2, txtAPI))
-					b := hdr2.Address.Pointer() > hdr1.Address.Pointer()+uint64(getFITDataSize(hdr1, txtAPI))
+					a := hdr1.Address.Pointer() >= hdr2.Address.Pointer()+uint64(getFITDataSize(hdr2, txtAPI))
+					b := hdr2.Address.Pointer() >= hdr1.Address.Pointer()+uint64(getFITDataSize(hdr1, txtAPI))
 
 					if !a && !b {
 						return false, fmt.Errorf("startup AC Module Entries overlap"), nil
